@@ -82,6 +82,7 @@ func C10(c *Ctx) {
 		refs := peq.References(f0, keepKey)
 		// ---- a
 		var bad []string
+		equivalentNF := map[string]string{}
 		for _, k := range peq.SortedKeys(i1) {
 			t0, ok := i0[k]
 			if !ok {
@@ -89,6 +90,13 @@ func C10(c *Ctx) {
 				continue
 			}
 			if t0 != i1[k] {
+				// the texts differ: the same decisions written differently? (normal-form path tables of the two versions)
+				if strings.HasPrefix(k, "func ") {
+					if ok, how := funcsEquivalentNF(funcItem(f0, k), funcItem(f1, k)); ok {
+						equivalentNF[k] = how
+						continue
+					}
+				}
 				bad = append(bad, k+": "+peq.Diff(t0, i1[k]))
 			}
 		}
@@ -102,6 +110,8 @@ func C10(c *Ctx) {
 		for _, k := range peq.SortedKeys(i1) {
 			if i0[k] == i1[k] {
 				r.Ok("C10-a", "T."+k+":PE(standard)==optimized", pair, "builder/static_code.go", "token-identical after specialisation")
+			} else if how, ok := equivalentNF[k]; ok {
+				r.Ok("C10-a", "T."+k+":PE(standard)==optimized", pair, "builder/static_code.go", "equivalent after specialisation ("+how+")")
 			}
 		}
 		// ---- a2
@@ -203,4 +213,19 @@ func C10(c *Ctx) {
 		})
 	}
 	r.Check(okM && uses == 2, "C10-b", "G.main:-optimize-parser-wired-only-to-builder.Optimize", "", "main.go", "flag used once, as builder.Optimize(*optimizeParserFlag)", fmt.Sprintf("wired=%t uses=%d", okM, uses))
+}
+
+
+// funcItem finds the function declaration an item key ("func recv.name" / "func name") names.
+func funcItem(f *ast.File, key string) *ast.FuncDecl {
+	for _, d := range f.Decls {
+		if fd, ok := d.(*ast.FuncDecl); ok {
+			for _, k := range peq.DeclKeys(fd) {
+				if k == key {
+					return fd
+				}
+			}
+		}
+	}
+	return nil
 }
